@@ -44,6 +44,8 @@ def typeclass(t):
         return 'duration'
     if t.startswith('std::lock_guard<') or t.startswith('std::unique_lock<') or t.startswith('std::scoped_lock<'):
         return 'lockguard'
+    if re.match(r'std::_Node_handle<', t) or t.endswith('::node_type'):
+        return 'node_handle'
     if re.match(r'(cappuccino::)?mutex<', t):
         return 'mutex'
     if re.match(r'std::(atomic<|__atomic_base<|atomic_(u?int|size_t|bool|u?long|u?llong|flag))', t):
